@@ -163,6 +163,25 @@ def mutations(r, d, others, wrong_key, quick, special_pubs=()):
                 tam = bytearray(sub)
                 tam[r.randrange(25 + klen, body_end)] ^= 0x20
                 out.append(("key-substituted-%s-body-tampered" % label, bytes(tam) + d[body_end:]))
+    # hybrid curve25519 identities sharing one half of the victim's key material (LibNaCLPK: + 32-byte encryption key +
+    # 32-byte signing key): first an AUTHENTIC datagram under the hybrid key (the attacker owns its signing half), then the
+    # victim's own key with the attacker's signature - anything remembered per key half must not carry over
+    vpub = d[25:25 + klen]
+    if klen == len(other_pub) == 74 and vpub.startswith(b"LibNaCLPK:") and other_pub.startswith(b"LibNaCLPK:"):
+        hyb = vpub[:42] + other_pub[42:]
+        subh = d[:25] + hyb + d[25 + klen:body_end]
+        out.append(("hybrid-key-resigned", subh + ec.create_signature(wrong_key, subh)))      # authentic for the hybrid key
+        out.append(("signed-by-other-key-after-hybrid-priming", d[:body_end] + ec.create_signature(wrong_key, d[:body_end])))
+        # the same with a victim identity the receiver has never heard of (nothing about it can be cached yet)
+        fresh = ec.generate_key("curve25519").pub().key_to_bin()
+        hybf = fresh[:42] + other_pub[42:]
+        subhf = d[:25] + hybf + d[25 + klen:body_end]
+        subf = d[:25] + fresh + d[25 + klen:body_end]
+        out.append(("fresh-hybrid-key-resigned", subhf + ec.create_signature(wrong_key, subhf)))   # authentic for the hybrid key
+        out.append(("fresh-victim-key-signed-by-other-key-after-hybrid-priming", subf + ec.create_signature(wrong_key, subf)))
+        hyb2 = other_pub[:42] + vpub[42:]
+        subh2 = d[:25] + hyb2 + d[25 + klen:body_end]
+        out.append(("hybrid-key-with-victims-signing-half-old-signature", subh2 + d[body_end:]))
     for o in others[:6]:
         if len(o) >= 64:
             out.append(("signature-transplant", d[:body_end] + o[-64:]))
